@@ -111,6 +111,27 @@ def _fmt(d):
 WIDTH = {"write_u8": 1, "write_u16": 2, "write_u32": 4, "write_u64": 8, "write_u128": 16}
 
 
+def _eval(e, decided):
+    """value of an integer expression on one path: constants, + - *, casts and `u16::from(flag)` of booleans the path has decided
+    (`8 * (u16::from(a) + u16::from(b) + u16::from(c)) + 4` with a, b, c the three ZIP64 tests); None when something else occurs"""
+    if e in decided and isinstance(decided[e], int):
+        return decided[e]
+    k = e[0]
+    if k == "const" and isinstance(e[2], int):
+        return int(e[2])
+    if k == "cast":
+        return _eval(e[1], decided)
+    if k == "call" and len(e[2]) == 1 and re.search(r"convert::(From|Into)(<[^>]*>)?::(from|into)$|::from$|::into$", e[1]):
+        return _eval(e[2][0], decided)
+    if k == "bin":
+        a, b = _eval(e[2], decided), _eval(e[3], decided)
+        if a is None or b is None:
+            return None
+        op = e[1].replace("WithOverflow", "")
+        return {"Add": a + b, "Sub": a - b, "Mul": a * b}.get(op)
+    return None
+
+
 def _serialiser_paths(fn):
     """[(returned constant or None, bytes written)] for every success path of a serialiser that reports a byte count"""
     S = sym.Sym(fn, max_paths=200000)
@@ -125,7 +146,7 @@ def _serialiser_paths(fn):
         if not (v[0] == "agg" and v[1] == "adt:Ok"):
             continue
         val = v[3][0][1] if v[3] else None
-        n = val[2] if val is not None and val[0] == "const" and isinstance(val[2], int) else None
+        n = _eval(val, dict((d_, (1 if v_ is None else v_)) for d_, v_ in o["state"].conds)) if val is not None else None
         w = 0
         for _, c, a, r in o["state"].trace:
             nm = c.split("::")[-1]
